@@ -112,7 +112,45 @@ def evaluate(res):
     return corr, orc
 
 
+def float_family(rep, tier, seed):
+    """arbitrary boxes and positions (incl. faces and corners of the box, 1-ulp neighbours of cell faces, coincident
+    particles) through the float path, counting kernel: every particle must end with N-1 (3^D N - 1 when periodic)"""
+    import ftree
+    binaries, bad = ftree.build_all()
+    cfgs = [c for c in sorted(binaries) if c[4] > 0]
+    if not cfgs:
+        return
+    cases = []
+    for k in range(120 if tier == "quick" else 1500):
+        r = gen.rng(seed, "C01f", k)
+        cases.append(ftree.make_case("c01f-%d" % k, cfgs[k % len(cfgs)], r, tier, False, False))
+    for res in ftree.run_cases(cases, binaries):
+        c = res.case
+        text = "# cfg=%r\n" % (c["cfg"],) + "\n".join(c["lines"]) + "\n"
+        if res.crash is not None:
+            rep.violation("crash:" + corefam.crash_signature(res.crash), "# " + res.crash.replace("\n", "\n# ") + "\n" + text, True,
+                          "the real library aborted on float-stream case %s: %s" % (c["name"], corefam.crash_signature(res.crash)))
+            continue
+        if res.cpp is None or res.lean is None:
+            continue
+        D, periodic = c["cfg"][0], c["cfg"][5]
+        n = len(c["meta"]["particles"])
+        want = (3 ** D if periodic else 1) * n - 1
+        seg = ftree.segments(res.cpp).get("exec1", [])
+        lseg = ftree.segments(res.lean).get("exec1", [])
+        bad_p = [ln for ln in seg if ln.startswith("R ") and int(ln.split()[2]) != want]
+        if bad_p:
+            rep.violation("C01:exactly-once-float", "# counting kernel: particle line '%s', expected %d\n%s" % (bad_p[0], want, text), True,
+                          "float-stream case %s (cfg %r): particle %s accumulated %s contributions instead of %d" % (c["name"], c["cfg"], bad_p[0].split()[1], bad_p[0].split()[2], want))
+        elif [ln for ln in seg if ln.startswith("R ")] != [ln for ln in lseg if ln.startswith("R ")]:
+            rep.violation("corr:float-rhs", "# library and model disagree on the counting-kernel results\n" + text, False, "float-stream case %s: library and model disagree" % c["name"])
+        rep.cov["evaluations"] = rep.cov.get("evaluations", 0) + 1
+    rep.cov["float_stream_cases"] = len(cases)
+
+
 def run(rep, tier, seed, replay, proof_ok, proof_msg):
     corefam.standard_run(rep, tier, seed, replay, proof_ok, proof_msg, gen_cases, evaluate)
+    if not replay:
+        float_family(rep, tier, seed)
     rep.assumptions += ["positions are exact cell centres (float path tied in C06)", "sequential executor (others: C03, C09, C10)",
                         "Hilbert ordering excluded (known finding F-H)"]
